@@ -289,6 +289,18 @@ def run(chk, facts, tier, only=None):
 
     # ------------------------------------------------------------------------------------------------- R2
     def r2():
+        # names generated for anonymous types come from the whole path text: apart from the case conversion (whose collisions are the open
+        # finding below) no character of a label or method name may be discarded, or sibling types whose paths differ only in punctuation
+        # or symbols (`"price.usd"` / `"price/usd"`) silently get one name
+        pv = cp.fn("^" + re.escape(RS) + r"path_to_var$")
+        chk.analysed(pv["key"])
+        lossy = [x for x in walk(pv["body"]) if x.get("k") == "mcall" and x["m"] in ("filter", "filter_map", "retain", "replace", "replacen", "trim", "trim_matches",
+                                                                                   "trim_start_matches", "trim_end_matches", "strip_prefix", "strip_suffix",
+                                                                                   "take_while", "skip_while", "truncate", "split_off", "dedup")]
+        chk.expect(not lossy, "path_to_var:no-character-discarded",
+                   f"rust::path_to_var drops characters of the path (`.{lossy[0]['m'] if lossy else ''}(..)`) before the case conversion: anonymous types below "
+                   f"`\"price.usd\"` and `\"price/usd\"`, or below two labels that differ only in symbols, get the same generated name and one replaces the other",
+                   where=f"{pv['span']['file']}:{lossy[0].get('ln') if lossy else ''}", ok_detail="join + case conversion only")
         sites = []
         for h in cp.fns("^" + RS):        # the whole Rust binding module: a helper outside NominalState is still seen
             if h.get("kind") not in ("Fn", "AssocFn"):
